@@ -1,5 +1,6 @@
 (* Props/C03.v — Every plan is internally consistent with the files it describes.  Statements only. *)
-From RN Require Import Base.Bytes Model.Edits Model.Matcher Model.Hunks Proofs.EditsP Proofs.HunksP.
+From RN Require Import Base.Bytes Model.StyleDef Model.Edits Model.Matcher Model.Hunks Model.Compound Model.Enhanced.
+From RN Require Import Proofs.EditsP Proofs.HunksP Proofs.EnhancedP1 Proofs.EnhancedP2.
 
 (* the literal scan of pattern.rs: every reported span is a real occurrence of one of the variants ... *)
 Theorem C03_find_iter_sound : forall vs c a b v, In (a, b, v) (find_iter vs c) ->
@@ -40,6 +41,47 @@ Theorem C03_consistent_applies : forall wt c hs,
   apply_edits_rev c (map edit_of_hunk hs) = Ok (spec_splice c (map edit_of_hunk hs)).
 Proof. exact consistent_applies. Qed.
 
+(* --- the case-aware scanner: compound_scanner.rs (Model/Enhanced.v: the identifier extractor regex as a hand scanner
+   with its backtracking and dot splitting, the exact pass, candidate-line scoping, the compound pass, the stable sort by
+   (line, column) and the whole overlap-resolution loop; tied differentially to find_enhanced_matches) ---------------- *)
+
+(* every identifier the extractor reports is the slice it names; identifiers are ordered and pairwise disjoint *)
+Theorem C03_identifiers_sound : forall styles c,
+  (forall s e id, In (s, e, id) (find_all styles c) ->
+     (s < e)%nat /\ (e <= length c)%nat /\ id = firstn (e - s) (skipn s c)) /\
+  spans_ok 0 (find_all styles c).
+Proof. exact identifiers_sound. Qed.
+
+(* the matches the scanner hands to generate_hunks are ordered and pairwise non-overlapping: for EVERY content, term,
+   variant table, style list and set of additional candidate lines (start < end unless table and file are both empty) *)
+Theorem C03_enhanced_sorted_disjoint : forall c search replace keys styles extra,
+  degenerate keys c = false -> schain 0 (find_enhanced_matches c search replace keys styles extra).
+Proof. exact enhanced_sorted_disjoint_strict. Qed.
+
+Theorem C03_enhanced_sorted_disjoint_all : forall c search replace keys styles extra,
+  chain 0 (find_enhanced_matches c search replace keys styles extra).
+Proof. exact enhanced_sorted_disjoint. Qed.
+
+(* each lies inside the file and carries the line and column of its offset *)
+Theorem C03_enhanced_within_content : forall c search replace keys styles extra m, degenerate keys c = false ->
+  In m (find_enhanced_matches c search replace keys styles extra) ->
+  (e_start m < e_end m)%nat /\ (e_end m <= length c)%nat /\
+  e_line m = line_of c (e_start m) /\ e_col m = col_of c (e_start m).
+Proof. exact enhanced_within_content. Qed.
+
+(* and each is either an exact match of the literal scan (boundary test passed) or an identifier span reported by the
+   extractor on which the compound matcher returned a result *)
+Theorem C03_enhanced_classified : forall c search replace keys styles extra m,
+  In m (find_enhanced_matches c search replace keys styles extra) ->
+  exact_kind keys c m \/ compound_kind styles c search replace m \/
+  (c = [] /\ degenerate keys c = true /\ m = empty_match).
+Proof. exact enhanced_candidates_classified. Qed.
+
+(* the one degenerate input, machine-checked and replayed on the real function: a term without letters or digits and an
+   empty file give one empty match 0..0 (build_pattern compiles `$^`); generate_hunks drops it (no variant) *)
+Example C03_enhanced_empty_match : find_enhanced_matches [] [45%N] [120%N] [] [Snake; Kebab] None = [empty_match].
+Proof. exact enhanced_empty_match_witness. Qed.
+
 Example C03_consistent_example :
   file_consistent true [120; 32; 102; 111; 111; 10]%N
     [ mk_hunk true [120; 32; 102; 111; 111; 10]%N 2 5 [98; 97; 114]%N ] = true.
@@ -51,3 +93,9 @@ Print Assumptions C03_find_matches_sound.
 Print Assumptions C03_line_start_spec.
 Print Assumptions C03_mk_hunk_ok.
 Print Assumptions C03_consistent_applies.
+Print Assumptions C03_identifiers_sound.
+Print Assumptions C03_enhanced_sorted_disjoint.
+Print Assumptions C03_enhanced_sorted_disjoint_all.
+Print Assumptions C03_enhanced_within_content.
+Print Assumptions C03_enhanced_classified.
+Print Assumptions C03_enhanced_empty_match.
